@@ -511,6 +511,26 @@ func c15Gen(c *Ctx) {
 		t.Try(map[int64]string{2: "hexdecode-exhaustive-small", 3: "hexdecode-inplace-exhaustive-small"}[kind], c15Case(kind, 0, 0, s, nil), l >= 1)
 	})
 	c.Note(fmt.Sprintf("hex: every text of length <= %d over \"09afAFgG/:`@\" for HexDecode and HexDecodeInPlace", HL))
+	// ---- hex: every byte value in either position of a two-character text (quick: against three fixed partners;
+	//      thorough: all 65 536 two-byte texts): a decoder that folds case or masks bits accepts bytes outside 0-9a-fA-F
+	partners := []byte("0aF")
+	if !c.Quick() {
+		partners = make([]byte, 256)
+		for i := range partners {
+			partners[i] = byte(i)
+		}
+	}
+	c.Each(256*len(partners)*2*2, func(i int, t *T) {
+		kind := int64(2 + i%2)
+		first := (i/2)%2 == 0
+		j := i / 4
+		b, q := int64(j%256), int64(partners[j/256])
+		s := []int64{b, q}
+		if !first {
+			s = []int64{q, b}
+		}
+		t.Try(map[int64]string{2: "hexdecode-all-bytes", 3: "hexdecode-inplace-all-bytes"}[kind], c15Case(kind, 0, 0, s, nil), true)
+	})
 	c.Each(c.N(12000, 300000), func(i int, t *T) {
 		r := t.R
 		n := r.Intn(40)
